@@ -1,8 +1,10 @@
 from ..runner import Harness, Spec
+from ..translate import go_translator
 
 SPEC = Spec(
     pid="C06",
     lean_modules=["OtelVerif.Props.C06"],
+    translators=[go_translator("fanoutshape", "OtelVerif/Gen/FanoutShape.lean")],
     harnesses=[
         Harness(name="fanout", module="internal/fanoutconsumer", pkg="internal/fanoutconsumer",
                 files={"zz_verif_c06_fanout_test.go": "c06/fanout_test.go"},
@@ -16,41 +18,73 @@ SPEC = Spec(
         Harness(name="exporter", module="exporter", pkg="exporter/exporterhelper",
                 files={"zz_verif_c06_exporter_test.go": "c06/exporter_test.go"},
                 test="TestVerifC06Exporter", driver="drv_c06", n={"quick": 1200, "thorough": 20000}),
+        Harness(name="xexporter", module="exporter/exporterhelper/xexporterhelper", pkg="exporter/exporterhelper/xexporterhelper",
+                files={"zz_verif_c06_xexporter_test.go": "c06/xexporter_test.go"},
+                test="TestVerifC06XExporter", driver="drv_c06", n={"quick": 800, "thorough": 10000}),
+        Harness(name="processor", module="processor/processorhelper", pkg="processor/processorhelper",
+                files={"zz_verif_c06_processor_test.go": "c06/processor_test.go"},
+                test="TestVerifC06Processor", driver="drv_c06", n={"quick": 800, "thorough": 10000}),
+        Harness(name="xprocessor", module="processor/processorhelper/xprocessorhelper", pkg="processor/processorhelper/xprocessorhelper",
+                files={"zz_verif_c06_xprocessor_test.go": "c06/xprocessor_test.go"},
+                test="TestVerifC06XProcessor", driver="drv_c06", n={"quick": 800, "thorough": 10000}),
         Harness(name="graph", module="service", pkg="service/internal/graph",
                 files={"zz_verif_c06_graph_test.go": "c06/graph_test.go"},
                 test="TestVerifC06Graph", driver="drv_c06", n={"quick": 2000, "thorough": 30000}),
     ],
     rule="fanout (all four signals; one consumer may cancel the request context while it is served): random capability vectors (1-7 "
-         "consumers), read-only/mutable input, failure patterns, synchronous and asynchronous writers, one undeclared writer, on RANDOM "
-         "payloads (1-3 resources, nested attribute values, several item kinds) with every write at one of 6 mutation sites (resource / "
-         "scope attribute, map nested in an item attribute, scalar field of the last item, appended resource, primitive or nested slice "
-         "of item 0); a mutating consumer's object must equal the sent bytes plus its OWN writes replayed on a private copy; plus "
-         "EXHAUSTIVE capability vectors of length <= 5 (quick) / <= 8 (thorough) x input mode x undeclared-writer position; "
-         "non-trivial = mixed mutating/non-mutating vector. router / xrouter: connector.New{Logs,Metrics,Traces}Router and "
-         "xconnector.NewProfilesRouter (...).Consumer(selected pipelines...) on random pipeline sets, selections (half of them a single "
-         "pipeline) and failing consumers, capability read from the returned consumer, plus every capability vector <= 3 x every single "
-         "selection; compared with the same fan-out model. exporter: exporters built with the real exporter helper from random option "
-         "lists (own declaration none/false/true, sending_queue::batch, legacy batcher on/off, disabled queue with a batch section, both, "
-         "neutral options, random order): advertised MutatesData vs exporterCap. graph: random DAGs built by the real graph.Build for a "
+         "consumers; every 16th case 8-40 consumers), read-only/mutable input, failure patterns, synchronous and asynchronous writers, "
+         "one undeclared writer, on RANDOM payloads (1-3 resources, nested attribute values, several item kinds) with every write at one "
+         "of 6 mutation sites; every 4th case the SAME fan-out object is used for 2-3 payloads in a row (other content, other input "
+         "mode); a mutating consumer's object must equal the sent bytes plus its OWN writes replayed on a private copy; plus EXHAUSTIVE "
+         "capability vectors of length <= 5 (quick) / <= 8 (thorough) x input mode x undeclared-writer position; non-trivial = mixed "
+         "mutating/non-mutating vector. router / xrouter: connector.New{Logs,Metrics,Traces}Router and xconnector.NewProfilesRouter: "
+         "(a) which selections Consumer(ids...) accepts (empty, unknown ids, repeats) vs routerSelect, (b) the returned consumer on "
+         "random pipeline sets, selections (half of them a single pipeline; every 8th with a pipeline selected twice or more), failing "
+         "consumers, capability read from the returned consumer, vs the fan-out model, (c) histories on ONE router object: the route is "
+         "requested, 1-2 more routes are requested from the same router, then the payload is sent on the first; plus every capability "
+         "vector <= 3 x every single selection. exporter / xexporter: exporters built with exporterhelper.New{Logs,Traces,Metrics} and "
+         "xexporterhelper.NewProfilesExporter from random option lists (own declarations in option order, sending_queue::batch, legacy "
+         "batcher on/off, disabled queue with a batch section, both, neutral options, random order): advertised MutatesData vs "
+         "exporterCap and exporterCapH (defaults regenerated from the source). processor / xprocessor: processors built with "
+         "processorhelper.New{Logs,Traces,Metrics} / xprocessorhelper.NewProfiles from random option lists (0-3 own declarations, "
+         "start/shutdown options): advertised MutatesData vs processorCapH. graph: random DAGs built by the real graph.Build for a "
          "random signal of the four (1-6 pipelines, 1-2 receivers, pipelines with several sources, connector chains, connectors fed by "
-         "several pipelines, exporters shared between pipelines, a probe processor at every pipeline entry): (1) advertised capability "
-         "of every pipeline vs pipelineCap/aggregateCap, (2) for EVERY fan-out call (source -> pipelines, pipeline -> exporters and "
-         "connectors) the order-independent summary (read-only flag at each consumer, number of mutating consumers holding the "
-         "original) vs the model (C06_seen_ro, C06_origMut, C06_summary_perm) + identity oracles, (3) trail oracles per exporter call. "
-         "non-trivial = more than one pipeline and mixed capabilities. distinct = distinct op sequences.",
+         "several pipelines, exporters shared between pipelines, a probe processor at a varying position in every pipeline, every 16th "
+         "case one pipeline with 8-17 exporters, every 3rd case failing exporters, every 4th case cross-signal connectors feeding extra "
+         "pipelines of another signal, all 12 pairs): (1) advertised capability of every pipeline vs "
+         "pipelineCap/aggregateCap, (2) for EVERY fan-out call the order-independent summary vs the model (C06_seen_ro, C06_origMut, "
+         "C06_summary_perm) + identity oracles, (3) the WHOLE unfolded graph below every receiver vs the whole-graph model Dag.fan: "
+         "capability of every top-level pipeline, number of errors returned to the receiver, and for every exporter call (sorted) "
+         "exporter id : read-only flag at call : trail at call : trail at the very end (after one more asynchronous write by every "
+         "declared-mutating exporter) : number of exporter calls holding the same object; the Lean oracle judges the implementation's "
+         "line against the ABSTRACT private-copy semantics (checkLeaves, proved sound) + shared=>read-only + exclusivity, (4) Go-side "
+         "trail oracles per exporter call. non-trivial = more than one pipeline and mixed capabilities. distinct = distinct op sequences.",
     trusted_base=[
         "Lean 4.33.0 kernel; axioms per theorem listed under axioms_per_theorem",
-        "hand-written model of NewLogs/ConsumeLogs/Capabilities (one model for the four signal files), pipeline capability, aggregateCap, "
-        "exporterCap; tied by exact differential on every run (object identity read by reflection on the pdata wrapper's pointer field)",
-        "payload content is ONE abstract number in the model: 'a clone is an independent equal object' and 'a write to a read-only "
-        "payload panics without effect' are property C07's theorems, used here as the definition of Heap.write / call and OBSERVED by the "
-        "fan-out harness on random payloads at 6 kinds of mutation site (not proved here)",
+        "translator translators/cmd/fanoutshape (go/ast, stdlib only): statement-by-statement translation of New*/Capabilities/"
+        "Consume*/clone* of each of the four internal/fanoutconsumer files into the small language of Model/C06Src.lean (interpreted "
+        "and proved equal to the hand-written model for all capability vectors: C06_src_fanout); aggregateCap and the capabilities "
+        "node as fold expressions; per-signal call-site facts for connectorNode.build*, the capabilities node arms, "
+        "capabilityconsumer.New*; Consumer(ids...) of each signal's connector router; the default declarations of consumer/internal, "
+        "processorhelper, xprocessorhelper and the exporter helper's batching declaration; exit 2 on any unknown shape. Trusted: the "
+        "translator's recognisers (a wrong recogniser would have to coincide with the exact differential on the same code)",
+        "hand-written models deliveries/runFan (flat fan-out), Dag.fan (whole graph; C06_dag_flat proves its fan-out step IS the flat "
+        "model), pipelineCap, aggregateCap, routerSelect, applyCaps: all tied by exact differential on every run (object identity read "
+        "by reflection on the pdata wrapper's pointer field)",
+        "payload content is abstract in the models (one number in the flat model, the list of writers' tags in the whole-graph model): "
+        "'a clone is an independent equal object' and 'a write to a read-only payload panics without effect' are property C07's "
+        "theorems, used here as the definition of Heap.write / clone and OBSERVED by the fan-out harness on random payloads at 6 kinds "
+        "of mutation site (not proved here)",
         "the graph hands consumers to a fan-out in graph-iteration order: only order-independent facts are compared there "
-        "(C06_fanCap_perm, C06_summary_perm)",
+        "(C06_fanCap_perm, C06_summary_perm; the whole-graph comparison sorts the exporter calls; C06_dag_refines holds for every order)",
         "consumers are called sequentially by the fan-out (as the code does); asynchronous work happens after the fan-out returned",
     ],
     assumptions=[
         "clone = fresh equal object (C07); write to read-only object = panic, no change (C07)",
         "graph hands exporters to the fan-out in map order: the capability is order-independent (C06_fanCap_perm)",
+        "whole-graph model: same-signal connectors pass the object they received on to their router (what the graph wraps with "
+        "aggregateCap); a cross-signal connector is a leaf (own declared capability) of the pipeline that feeds it and the root of a new "
+        "journey of a NEW payload that starts with the trail so far (generated: every 4th graph case has 1-2 extra pipelines of another "
+        "signal fed by cross-signal connectors; all 12 signal pairs occur)",
     ],
 )
